@@ -16,7 +16,8 @@ package strategy
 //@ func calculateMaxCreation
 //@   requires params != nil && params.SlowStartAdditiveIncrease != nil && params.SlowStartIntervalDuration != nil
 //@   requires params.MaxParallelPodCreation != nil
-//@   modifies nothing
+//@   pure
+//@   reads *params, *params.SlowStartAdditiveIncrease, *params.SlowStartIntervalDuration, *params.MaxParallelPodCreation
 //@   let inc = intstr.GetValueFromIntOrPercent(params.SlowStartAdditiveIncrease, nbNodes, true)
 //@   let t = now - rsStartTime
 //@   let iv = params.SlowStartIntervalDuration.Duration
@@ -53,7 +54,32 @@ package strategy
 //@   ensures [C08] frozen-flag: result.IsFrozen <==> eds.IsRolloutFrozen(daemonset.ObjectMeta.Annotations)
 //@   ensures [C08] paused-or-frozen-no-update-delete: result.IsPaused || result.IsFrozen ==> len(result.PodsToDelete) == 0
 //@   ensures [C08] frozen-no-create: result.IsFrozen ==> len(result.PodsToCreate) == 0
-//@   loop 1 invariant true
+//@   ensures [C01,C04] create-only-missing: forall i int :: 0 <= i && i < len(result.PodsToCreate) ==>
+//@             (result.PodsToCreate[i] in params.PodByNodeName) && params.PodByNodeName[result.PodsToCreate[i]] == nil
+//@   ensures [C01] create-distinct: forall i int, j int :: 0 <= i && i < j && j < len(result.PodsToCreate) ==> result.PodsToCreate[i] != result.PodsToCreate[j]
+//@   ensures [C03,C04] delete-only-outdated-live: forall i int :: 0 <= i && i < len(result.PodsToDelete) ==>
+//@             (result.PodsToDelete[i] in params.PodByNodeName) && params.PodByNodeName[result.PodsToDelete[i]] != nil
+//@             && params.PodByNodeName[result.PodsToDelete[i]].ObjectMeta.DeletionTimestamp == nil
+//@             && !compareCurrentPodWithNewPod(params, params.PodByNodeName[result.PodsToDelete[i]], result.PodsToDelete[i])
+//@   ensures [C04] canary-nodes-excluded: forall k int :: 0 <= k && k < len(params.CanaryNodes) ==> !(params.NodeByName[params.CanaryNodes[k]] in params.PodByNodeName)
+//@   ensures [C03,C09] delete-bound: result1 == nil ==> len(result.PodsToDelete) <= max(0,
+//@             fst(intstr.GetValueFromIntOrPercent(params.Strategy.RollingUpdate.MaxUnavailable, len(params.PodByNodeName), true)))
+//@   ensures [C09] create-bound: result.NewStatus != nil ==> len(result.PodsToCreate) <= max(0,
+//@             fst(calculateMaxCreation(&params.Strategy.RollingUpdate, len(params.PodByNodeName), getRollingUpdateStartTime(&params.Replicaset.Status, metaNow.Time), metaNow.Time)))
+//@   ensures [C14] counters-ordered: result.NewStatus != nil ==> 0 <= result.NewStatus.Available && result.NewStatus.Available <= result.NewStatus.Ready
+//@             && result.NewStatus.Ready <= result.NewStatus.Current && result.NewStatus.Current <= result.NewStatus.Desired
+//@   ensures [C14] desired-is-node-count: result.NewStatus != nil ==> result.NewStatus.Desired == len(params.PodByNodeName)
+//@   loop 1 invariant forall k int :: 0 <= k && k < iter() ==> !(params.NodeByName[params.CanaryNodes[k]] in params.PodByNodeName)
 //@   loop 1 modifies mapof(params.PodByNodeName)
-//@   loop 2 invariant true
+//@   loop 2 invariant desiredPods == iter() && 0 <= availablePods && availablePods <= readyPods && readyPods <= createdPods
+//@   loop 2 invariant 0 <= allPods && 0 <= oldAvailablePods && 0 <= oldUnavailablePods && 0 <= podsTerminating && 0 <= nbIgnoredUnresponsiveNodes
+//@   loop 2 invariant root(allPodToCreate) != root(allPodToDelete)
+//@   loop 2 invariant createdPods + len(allPodToCreate) + len(allPodToDelete) + podsTerminating + nbIgnoredUnresponsiveNodes == iter()
+//@   loop 2 invariant forall j int :: 0 <= j && j < len(allPodToCreate) ==> (allPodToCreate[j] in params.PodByNodeName)
+//@             && params.PodByNodeName[allPodToCreate[j]] == nil && 0 <= iteridx(allPodToCreate[j]) && iteridx(allPodToCreate[j]) < iter()
+//@   loop 2 invariant forall j int, k int :: 0 <= j && j < k && k < len(allPodToCreate) ==> iteridx(allPodToCreate[j]) < iteridx(allPodToCreate[k])
+//@   loop 2 invariant forall j int :: 0 <= j && j < len(allPodToDelete) ==> (allPodToDelete[j] in params.PodByNodeName)
+//@             && params.PodByNodeName[allPodToDelete[j]] != nil
+//@             && params.PodByNodeName[allPodToDelete[j]].ObjectMeta.DeletionTimestamp == nil
+//@             && !compareCurrentPodWithNewPod(params, params.PodByNodeName[allPodToDelete[j]], allPodToDelete[j])
 //@   loop 3 invariant true
